@@ -259,6 +259,26 @@ Proof.
 Qed.
 Print Assumptions C14_nonvacuous_one_hash.
 
+(* ---- 3f. a decoded value owns its memory ----------------------------------------------------- *)
+(* In the model decoding returns a value (an inductive term): what is later done to the
+   byte string it was read from - represented by an arbitrary second byte string b' the
+   buffer may hold afterwards - cannot change the value, its encoding or its hash.
+   Immediate in the model; the tie to the implementation is the ownership oracle of the
+   harness (no byte field of a decoded object overlaps the input buffer, the object is
+   unchanged after the buffer is overwritten, handlers leave their input untouched and
+   relay bytes that decode). *)
+Theorem C14_decoded_value_independent_of_input_buffer :
+  forall (H : bytes -> bytes) s (b b' : bytes) v,
+    decode_t s b = Some v ->
+    let after_reuse := b' in
+    encode_t s v = hash_preimage s b /\ option_map H (encode_t s v) = hash_of H s b.
+Proof.
+  exact (fun H s b b' v Hd =>
+           conj (eq_sym (f_equal (fun o => bind o (encode_t s)) Hd))
+                (eq_sym (f_equal (fun o => option_map H (bind o (encode_t s))) Hd))).
+Qed.
+Print Assumptions C14_decoded_value_independent_of_input_buffer.
+
 (* ---- 4. hostile bytes: the specification decoder is total and linear ------------------ *)
 (* [decode] is a total Coq function (no exception, no divergence) and what it
    builds is at most twice the input.  PARTIAL with respect to the property:
